@@ -4,7 +4,7 @@ From SV Require Import Lib.Base Gen.Consts.
 From SV Require Import Model.Seq32 Model.Assembler Model.TcpBuf Model.TcpTypes Model.Tcp Model.TcpNet.
 From SV Require Import Proofs.TcpSendBase Proofs.TcpLiveBase Proofs.TcpLiveProofs Proofs.TcpLiveMore Proofs.TcpLiveProgress.
 From SV Require Import Proofs.TcpNetBase.
-From SV Require Import Proofs.TcpProgressBase Proofs.TcpProgressFrame Proofs.TcpProgressRecv Proofs.TcpProgressSend Proofs.TcpProgressNet Proofs.TcpProgressData Proofs.TcpProgressAck Proofs.TcpProgressAll Proofs.TcpProgressExample Proofs.TcpProgressWitness.
+From SV Require Import Proofs.TcpProgressBase Proofs.TcpProgressFrame Proofs.TcpProgressRecv Proofs.TcpProgressSend Proofs.TcpProgressNet Proofs.TcpProgressData Proofs.TcpProgressAck Proofs.TcpProgressAll Proofs.TcpProgressZwp Proofs.TcpProgressExample Proofs.TcpProgressWitness.
 From SV Require Import Props.C02live.
 
 Check (C02live_fair_runb_sound : forall Dt Da evs fa st,
@@ -249,3 +249,34 @@ Check (C02live_composition_applies :
     net_init ex_cfg_a ex_cfg_b = Ok st0 /\ net_run st0 wit_prefix = Ok st /\ net_run st wit_suffix = Ok st' /\
     exists pre post st1, wit_suffix = pre ++ post /\ net_run st pre = Ok st1 /\ net_run st1 post = Ok st' /\
                          5 <= read_off (net_get st1 SB)).
+
+Check (C02live_zero_window_update_due_partial : forall cx s,
+  s_tuple s <> None -> tcp_window_to_update s = Ok true ->
+  match tcp_poll_at cx s with Ok Tcp.PNow => True | Ok _ => False | _ => True end).
+
+Check (C02live_zero_window_update_learned_partial : forall cx s ip r s' reply tags d W,
+  ctx_ok cx -> seg_ok r -> tcp_live_inv s -> s_state s = Established ->
+  r_control r = CNone -> r_payload r = [] ->
+  r_seq_number r = tcp_window_start s ->
+  tcp_window_end s = seq_norm (tcp_window_start s + W) -> 0 <= W <= 2 ^ 30 ->
+  r_ack_number r = Some (sq (s_local_seq_no s + d)) ->
+  0 <= d <= rb_len (s_tx_buffer s) -> rb_len (s_tx_buffer s) < 2 ^ 30 ->
+  0 < r_window_len r ->
+  tcp_process cx s ip r = Ok (s', reply, tags) ->
+  s_remote_win_len s' = shl (r_window_len r) (win_scale_of s r) /\ 0 < s_remote_win_len s' /\
+  rb_len (s_tx_buffer s') = rb_len (s_tx_buffer s) - d).
+
+Check (C02live_zero_window_probe_sent_partial : forall cx s e d0 s' res tags,
+  tcp_live_inv s -> s_state s = Established ->
+  s_timer s = TZeroWindowProbe e d0 -> e <= cx_now cx -> 0 < d0 ->
+  s_remote_win_len s = 0 -> 0 < rb_len (s_tx_buffer s) ->
+  s_remote_last_seq s = s_local_seq_no s ->
+  s_timeout s = None ->
+  (forall t, s_tuple s = Some t -> tu_local_addr t = cx_addr cx) ->
+  mss_ok cx s ->
+  tcp_dispatch cx s true = Ok (s', res, tags) ->
+  exists ip repr,
+    res = DSent (ip, repr) /\
+    r_seq_number repr = s_local_seq_no s /\ l_len (r_payload repr) = 1 /\
+    (exists e' d', s_timer s' = TZeroWindowProbe e' d' /\ cx_now cx < e' <= cx_now cx + max_rto_us) /\
+    s_local_seq_no s' = s_local_seq_no s /\ s_state s' = s_state s).
